@@ -62,7 +62,7 @@ def check(case):
             must_raise(o, ValueError, "%s [infeasible / malformed]" % ctx)
             continue
         res = must(o, "%s, random_state=%d [feasible]" % (ctx, s))
-        if not isinstance(res, list) or len(res) != K:
+        if not isinstance(res, (list, tuple)) or len(res) != K:
             raise Violation("wrong_K", "%s seed %d returned %r (expected %d interventions)" % (ctx, s, res, K))
         used = set()
         for iv in res:
